@@ -8,12 +8,17 @@ path condition (pc) restricted to the goal's cone of influence.
 Nothing in here knows about esutil.
 """
 import time
+import os
+import sys
 import fractions
 import math
 import z3
 
 # ----------------------------------------------------------------------------
 # control-flow exceptions (BaseException: harness code catches only Exception)
+
+
+_TRACE = bool(os.environ.get('VF_TRACE'))
 
 
 class PathAbort(BaseException):
@@ -797,6 +802,26 @@ class Ctx(object):
         self._id_path = 0
         self.pc_known_sat = True
         self.checks_on_path = 0
+        self.hints = []         # lists of z3 constraints: concrete sample points tried when a feasibility query is unknown
+
+    def hint(self, *constraints):
+        """a concrete sample point (or partial one) of the input space: when a satisfiability question
+        about the path condition comes back unknown it is asked again with these equalities added;
+        sat under a hint is sat (the converse is never used)"""
+        self.hints.append([c for c in constraints])
+
+    def _feas_hinted(self, extra, timeout_ms=None):
+        for hs in self.hints:
+            try:
+                s = z3.Solver()
+                s.set("timeout", timeout_ms or self.feas_timeout_ms)
+                for h in list(self.pc) + list(self.axioms) + ([extra] if extra is not None else []) + hs:
+                    s.add(h)
+                if str(s.check()) == "sat":
+                    return "sat"
+            except z3.Z3Exception:
+                pass
+        return "unknown"
 
     def fresh_id(self):
         self._id_path += 1
@@ -877,6 +902,12 @@ class Ctx(object):
     def _feas(self, extra=None):
         t0 = time.time()
         self.stats.feas_queries += 1
+        if self.hints and self.axioms and getattr(self, "_incr_gave_up", 0) >= 1:
+            # polynomial path conditions and sample points at hand: most side questions are
+            # satisfiable, and a sample point shows that at once
+            if self._feas_hinted(extra, min(self.feas_timeout_ms, 400)) == "sat":
+                self.stats.solver_s += time.time() - t0
+                return "sat"
         if self.axioms and getattr(self, "_incr_gave_up", 0) >= 2:
             # polynomial path conditions: incremental mode keeps timing out, go straight
             # to a fresh solver
@@ -900,6 +931,8 @@ class Ctx(object):
         self.stats.solver_s += time.time() - t0
         if r == "unknown":
             self.stats.feas_unknown += 1
+        if _TRACE and time.time() - t0 > 0.3:
+            sys.stderr.write("[trace] feas %.1fs %s: %s\n" % (time.time() - t0, r, str(extra).replace("\n", " ")[:150]))
         return r
 
     def _feas_fresh(self, extra):
@@ -915,7 +948,7 @@ class Ctx(object):
                 r = "unknown"
             if r != "unknown":
                 return r
-        return "unknown"
+        return self._feas_hinted(extra)
 
     def _check_budget(self):
         if self.deadline is not None and time.time() > self.deadline:
@@ -1056,6 +1089,8 @@ class Ctx(object):
             except z3.Z3Exception:
                 pass
         self.stats.solver_s += time.time() - t0
+        if _TRACE and time.time() - t0 > 0.3:
+            sys.stderr.write("[trace] solve %.1fs %s: %s\n" % (time.time() - t0, r, str(extra).replace("\n", " ")[:150]))
         return r, m
 
     def model_inputs(self, m):
@@ -1092,6 +1127,16 @@ class Ctx(object):
             rr = str(sx.check())
             self.stats.solver_s += time.time() - t0
             if rr == "unsat":
+                # vacuity guard: contradictory hypotheses would prove anything
+                sv = z3.Solver()
+                sv.set("timeout", min(self.query_timeout_ms, 3000))
+                for h in hyps:
+                    sv.add(h)
+                if str(sv.check()) == "unsat":
+                    self.stats.queries["unknown"] += 1
+                    self.results.append(Result(label, "unknown", None, time.time() - t0, list(self.prefix[:self.pos]),
+                                               "the explicit hypotheses are contradictory (vacuous query)"))
+                    return False
                 self.stats.queries["unsat"] += 1
                 return True
             if rr == "sat":
@@ -1321,6 +1366,8 @@ class Ctx(object):
             s.add(h)
         t0 = time.time()
         r = str(s.check())
+        if r == "unknown" and self.hints:
+            r = self._feas_hinted(None, self.feas_timeout_ms * 3)
         self.stats.solver_s += time.time() - t0
         return r
 
